@@ -3,21 +3,36 @@
 proof:   EpsieProps/C20.lean over EpsieModel/Checkpoint.lean (C20_roundtrip, C20_frame,
          C20_sequences, C20_sequences_total, C20_dump_succeeds_iff, C20_overwrite, C20_fresh,
          C20_assign_exact, C20_failed_dump_no_effect, C20_state_roundtrip,
-         C20_checkpoint_roundtrip, ...)
-tie:     correspondence suite `checkpoint`: the real epsie.dump_state / dump_pickle_to_hdf /
-         load_state / BaseSampler.checkpoint / set_state_from_checkpoint run against the in-memory
-         h5py stand-in harness/h5stub.py; every operation is replayed by the Lean driver
+         C20_checkpoint_roundtrip, ...; for dump_pickle_to_hdf as an entry point of its own:
+         C20_stream_position_irrelevant, C20_stream_roundtrip, C20_stream_just_written,
+         C20_dump_state_via_stream; for several files open at once: C20_other_files_untouched,
+         C20_file_as_if_alone, C20_world_projection)
+tie:     correspondence suite `checkpoint`: EVERY public entry point of the real code —
+         epsie.dump_state (also as epsie.samplers.dump_state), epsie.dump_pickle_to_hdf,
+         epsie.load_state (also as epsie.samplers.load_state), BaseSampler.checkpoint,
+         BaseSampler.set_state_from_checkpoint — in every call style (keywords, positional, defaults
+         left out, ...), run against the in-memory h5py stand-in harness/h5stub.py, with ONE OR TWO
+         file objects open in the process; every operation is replayed by the Lean driver
          (lean/DriverCheckpoint.lean) and compared: which arm of dump_pickle_to_hdf ran
          (create / resize / keep), which exception class, the bytes handed to pickle.load, and
-         the whole file contents byte for byte.  The pickle bytes are oracle inputs (captured from
-         the real pickle.dump call).
+         the whole contents of every file byte for byte.  The pickle bytes are oracle inputs
+         (captured from the real pickle.dump call).  dump_pickle_to_hdf is driven with streams in
+         every state a caller can have one in — positioned at 0, at the end (just written, not
+         rewound), inside (partially read), beyond the end; io.BytesIO built over the bytes or
+         filled by write / pickle.dump, real temporary files ('w+b' buffered and unbuffered, 'a+b',
+         'rb'), SpooledTemporaryFile (in memory and rolled over), BufferedRandom / BufferedReader,
+         mmap, a non-io object with seek/read only — and the driver is fed the real position
+         (`dumps` lines); the model's Stream.read / Stream.write are compared with io.BytesIO and a
+         real file (`sread` / `swrite` lines).
 search:  the same real calls with an oracle taken from the property statement and independent of
          the Lean model: the stored bytes of every key are the bytes of the last dump to it
-         (= pickle.dumps(state, protocol) computed by the harness), the bytes handed to
-         pickle.load are those bytes, the loaded object equals the dumped one, no other key is
-         disturbed.  Payloads: all 256 byte values, leading / trailing / only zero bytes, empty
-         and one-byte strings, sizes around powers of two, all pickle protocols, numpy arrays
-         and scalars, states of real samplers of every proposal family (MH and PT).
+         (= pickle.dumps(state, protocol) computed by the harness, resp. ALL the bytes the stream
+         handed to dump_pickle_to_hdf holds), the bytes handed to pickle.load are those bytes, the
+         loaded object equals the dumped one, no other key of any open file is disturbed, no
+         dataset appears that was not dumped.  Payloads: all 256 byte values, leading / trailing /
+         only zero bytes, empty and one-byte strings, sizes around powers of two, all pickle
+         protocols, numpy arrays and scalars, states of real samplers of every proposal family
+         (MH and PT).
 
 Trusted: fidelity of harness/h5stub.py to h5py/HDF5 (h5py is not installed here).
 """
@@ -469,8 +484,19 @@ def payload_bytes(payload, cat):
     return mk_bytes(payload), None
 
 
+class HarnessIO(OSError):
+    """The harness could not make a temporary file: infrastructure trouble, not a finding."""
+
+
 def make_stream(sdesc, cat):
     """Build the stream of a descriptor.  Returns (stream, bytes it holds, object or None)."""
+    try:
+        return _make_stream(sdesc, cat)
+    except OSError as e:
+        raise HarnessIO('cannot build stream %r: %r' % (sdesc[:2], e))
+
+
+def _make_stream(sdesc, cat):
     container, fill, payload, (poskind, k) = sdesc
     data, obj = payload_bytes(payload, cat)
     n = len(data)
@@ -551,7 +577,7 @@ def stream_content(s, container, n):
 #   allkw  every argument by its documented name
 #   mixed  the first optional argument positional, the rest by keyword
 #   alias  through the other public name of the same function: epsie.samplers.dump_state /
-#          load_state, resp. the unbound BaseSampler method
+#          load_state, resp. the method taken from the sampler's class and given the sampler
 STYLES = ('kw', 'pos', 'min', 'allkw', 'mixed', 'alias')
 
 
@@ -589,18 +615,16 @@ def call_load_state(fp, path, name, style):
 
 
 def call_checkpoint(sampler, fp, path, name, style):
-    from epsie.samplers.base import BaseSampler
     opts = [('path', path, None), ('dsetname', name, DEFAULT_NAME)]
     if style == 'alias':
-        return _invoke(BaseSampler.checkpoint, [sampler, fp], ['self', 'fp'], opts, 'kw')
+        return _invoke(type(sampler).checkpoint, [sampler, fp], ['self', 'fp'], opts, 'kw')
     return _invoke(sampler.checkpoint, [fp], ['fp'], opts, style)
 
 
 def call_restore(sampler, fp, path, style):
-    from epsie.samplers.base import BaseSampler
     opts = [('path', path, None)]
     if style == 'alias':
-        return _invoke(BaseSampler.set_state_from_checkpoint, [sampler, fp], ['self', 'fp'], opts, 'kw')
+        return _invoke(type(sampler).set_state_from_checkpoint, [sampler, fp], ['self', 'fp'], opts, 'kw')
     return _invoke(sampler.set_state_from_checkpoint, [fp], ['fp'], opts, style)
 
 
@@ -1210,6 +1234,7 @@ def execute(case, res=None):
                     stream.close()
                 except Exception:
                     pass
+            size_unknown = kind in ('state', 'ckpt') and captured is None
             calls = [c[0] for c in fp.calls]
             branch = 'create' if 'create' in calls else ('resize' if 'resize' in calls else 'keep')
             for i_, f_ in files.items():
@@ -1230,6 +1255,8 @@ def execute(case, res=None):
             must_succeed = _group_exists(fp, path) and not _is_group(fp, loc) and \
                 (fl not in foreign or foreign[fl] is None or len(want) <= foreign[fl] or
                  (before is not None and len(before[0]) == len(want)))
+            if must_succeed and size_unknown and foreign.get(fl) is not None:
+                must_succeed = False             # a size-limited dataset and a pickle of unobserved size
             where = ('at 0' if pos0 == 0 else 'at the end' if pos0 == len(want) else
                      'inside' if pos0 < len(want) else 'beyond the end')
             if kind == 'stream':
@@ -1551,6 +1578,8 @@ def search(chk, level, agg):
                      slashed=(i % 3 == 0), errors=True)
         try:
             r = execute(c)
+        except HarnessIO:
+            raise
         except Exception as e:
             errs.append({'case': c, 'exception': repr(e), 'traceback': traceback.format_exc()[-1500:]})
             if len(errs) > 5:
@@ -1573,6 +1602,8 @@ def search(chk, level, agg):
                            labels=all_labels, slashed=(i % 3 == 0))
         try:
             r = execute(c)
+        except HarnessIO:
+            raise
         except Exception as e:
             errs.append({'case': c, 'exception': repr(e), 'traceback': traceback.format_exc()[-1500:]})
             if len(errs) > 5:
@@ -1680,6 +1711,8 @@ def run(chk, tier, proof_ok):
         try:
             results.append(execute(c))
             kept.append(c)
+        except HarnessIO:
+            raise
         except Exception as e:          # harness trouble on a case: report as a broken correspondence
             errs.append({'case': c, 'exception': repr(e), 'traceback': traceback.format_exc()[-1500:]})
     cases = kept
